@@ -827,3 +827,128 @@ func TestFirstUseConcurrent(t *testing.T) {
 		}
 	}
 }
+
+// ---------------------------------------------------------------------------------------
+// (e) mutation histories: a serializer's output depends on the object's CURRENT fields only,
+// never on the calls made earlier on the same object (hidden caches / snapshots).
+
+type Edit struct {
+	Kind  string `json:"kind"` // hdr-set hdr-add hdr-del status uri payload method
+	Name  string `json:"name,omitempty"`
+	Value string `json:"value,omitempty"`
+	N     int    `json:"n,omitempty"`
+}
+
+type MutCase struct {
+	Sxg   sxgkit.Spec `json:"sxg"`
+	Edits []Edit      `json:"edits"`
+	// WriteBetween: serialise the live object after every edit (so a cache filled by one call can
+	// go stale before the next), not only at the end
+	WriteBetween bool `json:"write_between"`
+}
+
+func cloneHeader(h map[string][]string) map[string][]string {
+	out := make(map[string][]string, len(h))
+	for k, v := range h {
+		out[k] = append([]string{}, v...)
+	}
+	return out
+}
+
+func sxgOutputs(e *signedexchange.Exchange) map[string]string {
+	out := map[string]string{}
+	var wb bytes.Buffer
+	if err := e.Write(&wb); err != nil {
+		out["Write"] = "error: " + err.Error()
+	} else {
+		out["Write"] = wb.String()
+	}
+	var hb bytes.Buffer
+	if err := e.DumpExchangeHeaders(&hb); err != nil {
+		out["DumpExchangeHeaders"] = "error: " + err.Error()
+	} else {
+		out["DumpExchangeHeaders"] = hb.String()
+	}
+	if hi, err := e.ComputeHeaderIntegrity(); err != nil {
+		out["ComputeHeaderIntegrity"] = "error: " + err.Error()
+	} else {
+		out["ComputeHeaderIntegrity"] = hi
+	}
+	return out
+}
+
+var mutProp = vh.Define("C18", "mutation-history", func(c MutCase, r *vh.R) {
+	s := c.Sxg
+	s.Mock = true
+	live, _, err := sxgkit.Build(&s)
+	if err != nil {
+		r.Skip = true
+		return
+	}
+	compare := func(step int) bool {
+		fresh := signedexchange.NewExchange(live.Version, live.RequestURI, live.RequestMethod, cloneHeader(live.RequestHeaders), live.ResponseStatus, cloneHeader(live.ResponseHeaders), append([]byte{}, live.Payload...))
+		fresh.SignatureHeaderValue = live.SignatureHeaderValue
+		a, b := sxgOutputs(live), sxgOutputs(fresh)
+		for k := range a {
+			if a[k] != b[k] {
+				r.Failf("history-dependent", "after edit %d (%+v) %s of the edited object differs from %s of a fresh object with identical fields (first difference at %d of %d/%d)", step, c.Edits[:step], k, k, firstDiff([]byte(a[k]), []byte(b[k])), len(a[k]), len(b[k]))
+				return false
+			}
+		}
+		return true
+	}
+	if !compare(0) {
+		return
+	}
+	for i, ed := range c.Edits {
+		switch ed.Kind {
+		case "hdr-set":
+			live.ResponseHeaders.Set(ed.Name, ed.Value)
+		case "hdr-add":
+			live.ResponseHeaders.Add(ed.Name, ed.Value)
+		case "hdr-del":
+			live.ResponseHeaders.Del(ed.Name)
+		case "status":
+			live.ResponseStatus = 200 + ed.N%300
+		case "uri":
+			live.RequestURI = live.RequestURI + ed.Value
+		case "payload":
+			live.Payload = append(append([]byte{}, live.Payload...), byte(ed.N))
+		case "method":
+			live.RequestMethod = ed.Value
+		case "reqhdr-set":
+			if live.RequestHeaders == nil {
+				live.RequestHeaders = map[string][]string{}
+			}
+			live.RequestHeaders.Set(ed.Name, ed.Value)
+		}
+		r.Class("edit:" + ed.Kind)
+		if c.WriteBetween || i == len(c.Edits)-1 {
+			if !compare(i + 1) {
+				return
+			}
+		}
+	}
+	if len(c.Edits) > 0 {
+		r.NT()
+	}
+})
+
+func TestPropMutationHistory(t *testing.T) {
+	mutProp.Rapid(t, func(t *rapid.T) MutCase {
+		s := sxgkit.GenSpec(t)
+		if s.PayloadLen > 500 {
+			s.PayloadLen %= 500
+		}
+		c := MutCase{Sxg: *s, WriteBetween: rapid.Bool().Draw(t, "between")}
+		for i := rapid.IntRange(1, 5).Draw(t, "nedits"); i > 0; i-- {
+			c.Edits = append(c.Edits, Edit{
+				Kind:  rapid.SampledFrom([]string{"hdr-set", "hdr-set", "hdr-add", "hdr-del", "status", "uri", "payload", "method", "reqhdr-set"}).Draw(t, "ekind"),
+				Name:  rapid.SampledFrom([]string{"X-New", "Content-Type", "x-one", "Vary", "Link"}).Draw(t, "ename"),
+				Value: rapid.SampledFrom([]string{"v", "", "text/plain", "a,b", "x y"}).Draw(t, "evalue"),
+				N:     rapid.IntRange(0, 1000).Draw(t, "en"),
+			})
+		}
+		return c
+	})
+}
